@@ -46,7 +46,7 @@ func init() {
 		MaxSteps:     120000,
 		YieldFiles:   []string{"dns/dns.go"},
 		QuickRuns:    20000,
-		ThoroughSecs: 600,
+		ThoroughSecs: 400,
 		Rule: "one run = one resolver configuration (cache capacity, UDP/TCP/both, server address family, network loss/dup/delay knobs) and one " +
 			"history of 1..12 sequential lookups over 1..capacity+2 names, each lookup with its own upstream script (per query type a list of UDP " +
 			"behaviours, up to two TCP connection behaviours, optional wrong-source injections) issued at a simulated time chosen around the " +
